@@ -33,9 +33,26 @@ Proof. exact ranges_unit. Qed.
 Print Assumptions C04_ranges_unit.
 
 (* ---- _group_edges: the three lists stay aligned; k-th entries = k-th edge of the group ---- *)
-Theorem C04_grouped_lists_aligned : forall ix es, Forall aligned (group_edges ix es).
-Proof. exact group_edges_aligned. Qed.
+(* The alignment needs every edge to carry every grouped key: `group_edges_raw` is the fold as it was before fix D46
+   (an edge without a 'weight' entry extends the index lists only); it keeps the lists aligned when every edge has a
+   weight entry, and not otherwise.  The repaired code (`group_edges`, used by Impl) is that fold after
+   edge_dict.setdefault('weight', 1.), which establishes the hypothesis. *)
+Theorem C04_grouped_lists_aligned : forall ix es, (forall e, In e es -> ewo e <> None) ->
+  Forall aligned (group_edges_raw ix es).
+Proof. exact group_raw_aligned. Qed.
 Print Assumptions C04_grouped_lists_aligned.
+
+Theorem C04_setdefault_establishes_it : forall ix es, group_edges ix es = group_edges_raw ix (map set_default es).
+Proof. exact group_edges_is_raw_after_setdefault. Qed.
+Print Assumptions C04_setdefault_establishes_it.
+
+Theorem C04_grouped_lists_aligned_repaired : forall ix es, Forall aligned (group_edges ix es).
+Proof. exact group_edges_aligned. Qed.
+Print Assumptions C04_grouped_lists_aligned_repaired.
+
+Theorem C04_alignment_needs_weights : exists ix es, ~ Forall aligned (group_edges_raw ix es).
+Proof. exact group_raw_unaligned_witness. Qed.
+Print Assumptions C04_alignment_needs_weights.
 
 Theorem C04_grouped_lists_content : forall ix es key,
   content (group_edges ix es) key = map (etriple ix) (filter (fun e => gkey_eqb (ekey ix e) key) es).
@@ -127,7 +144,8 @@ Theorem C04_err_scalar_fanout :
 Proof. exact err_scalar_fanout. Qed.
 Print Assumptions C04_err_scalar_fanout.
 
-(* non-vacuity: inside every guard, merged units, fan-in from two classes, parallel edges, self-connection, algebraic source *)
+(* non-vacuity: inside every guard, merged units, fan-in from two classes, parallel edges, self-connection, algebraic source,
+   two edges without a weight entry (default weight 1), one of them after a weighted edge of the same group *)
 Example C04_nonvacuous :
   wf w_ok = true /\ guard w_ok = true /\
   impl true w_ok st_ok = Some (spec w_ok st_ok) /\ impl false w_ok st_ok = Some (spec w_ok st_ok) /\
